@@ -3,6 +3,7 @@ package main
 import (
 	"bytes"
 	"fmt"
+	"strings"
 
 	"github.com/jsightapi/jsight-api-go-library/catalog"
 	"github.com/jsightapi/jsight-api-go-library/core"
@@ -69,6 +70,11 @@ func runC15(ctx *Ctx) {
 		if specErr := descrNormalForm(d); specErr != "" {
 			ctx.Violate(Violation{Kind: "wrong-output", Site: "core.description", What: fmt.Sprintf("description of %q is %q: %s", t, d, specErr), Input: in, Observed: string(d), Signature: "descr-normal-form:" + specErr})
 		}
+		// the text itself: an independent reading of the statement (LF only, parentheses stripped, surrounding
+		// blank lines removed, the indentation common to the non-blank lines removed)
+		if want, ok := specDescription(t); ok && !bytes.Equal(want, d) {
+			ctx.Violate(Violation{Kind: "wrong-output", Site: "core.description", What: fmt.Sprintf("description of %q is %q, the statement gives %q", t, d, want), Input: in, Observed: string(d), Expected: string(want), Signature: "descr-spec"})
+		}
 		// idempotent (a result that is itself "( ... )"-shaped is a different spelling, excluded)
 		tr := bytes.TrimSpace(d)
 		parenShaped := len(tr) >= 2 && tr[0] == '(' && tr[len(tr)-1] == ')'
@@ -133,3 +139,44 @@ func descrNormalForm(d []byte) string {
 }
 
 func c15EndToEnd(ctx *Ctx, r *Rng) {}
+
+// specDescription: the normalised description text as C15 states it (written from the statement, not from the code).
+// ok=false when the parenthesised spelling is malformed (the implementation reports an error there).
+func specDescription(t []byte) ([]byte, bool) {
+	s := strings.ReplaceAll(string(t), "\r\n", "\n")
+	s = strings.ReplaceAll(s, "\r", "\n")
+	tr := strings.TrimSpace(s)
+	if len(tr) >= 2 && tr[0] == '(' && tr[len(tr)-1] == ')' {
+		inner := strings.Trim(tr[1:len(tr)-1], " \t")
+		if inner == "" || inner[0] != '\n' || inner[len(inner)-1] != '\n' {
+			return nil, false
+		}
+		s = strings.Trim(inner, "\n")
+	}
+	lines := strings.Split(s, "\n")
+	isBlank := func(l string) bool { return strings.Trim(l, " \t") == "" }
+	for len(lines) > 1 && isBlank(lines[0]) {
+		lines = lines[1:]
+	}
+	s = strings.TrimRight(strings.Join(lines, "\n"), " \t\r\n")
+	lines = strings.Split(s, "\n")
+	first := lines[0]
+	indent := first[:len(first)-len(strings.TrimLeft(first, " \t"))]
+	if len(indent) == len(first) {
+		if len(first) > 0 {
+			indent = first[:len(first)-1]
+		}
+	}
+	for _, l := range lines[1:] {
+		if isBlank(l) {
+			continue
+		}
+		for !strings.HasPrefix(l, indent) {
+			indent = indent[:len(indent)-1]
+		}
+	}
+	for i, l := range lines {
+		lines[i] = strings.TrimPrefix(l, indent)
+	}
+	return []byte(strings.Join(lines, "\n")), true
+}
